@@ -11,6 +11,8 @@
  *   FCV_KILL   K:before | K:after    _exit(137) just before / after the K-th relevant mutating call
  *   FCV_PAUSE  CLASS:K:FIFO_OUT:FIFO_IN   at the K-th relevant call of CLASS (R|M|O = open for read)
  *              write one byte to FIFO_OUT and block until a byte arrives on FIFO_IN
+ *   FCV_JITTER=SEED   schedule perturbation: at every relevant call a pseudo-random function of (SEED, call
+ *              sequence number, thread id) decides to yield the CPU or to sleep 0-1500 us first
  *   FCV_FICLONE_EMULATE=1   answer ioctl(FICLONE) by copying the source bytes over the destination
  */
 #define _GNU_SOURCE
@@ -19,6 +21,8 @@
 #include <errno.h>
 #include <fcntl.h>
 #include <pthread.h>
+#include <sched.h>
+#include <time.h>
 #include <stdarg.h>
 #include <stdatomic.h>
 #include <stdio.h>
@@ -53,6 +57,7 @@ static atomic_long seq = 0;
 static atomic_long mut_count = 0;
 static atomic_long read_count = 0;
 static atomic_long openr_count = 0;
+static unsigned long jitter_seed = 0;
 static long kill_k = -1;
 static int kill_after = 0;
 static char pause_class = 0;
@@ -115,6 +120,8 @@ static void init(void) {
     if (l && *l) log_fd = syscall(SYS_openat, AT_FDCWD, l, O_WRONLY | O_CREAT | O_APPEND | O_CLOEXEC, 0644);
     const char *e = getenv("FCV_FICLONE_EMULATE");
     ficlone_emulate = e && *e == '1';
+    const char *j = getenv("FCV_JITTER");
+    if (j && *j) jitter_seed = strtoul(j, NULL, 10) * 2654435761UL + 1;
     const char *k = getenv("FCV_KILL");
     if (k && *k) {
         kill_k = atol(k);
@@ -281,6 +288,18 @@ static void do_pause(void) {
  */
 static int gate(char cls, const char *fn, const char *path, long *seq_out, int *kill_after_out) {
     long s = atomic_fetch_add(&seq, 1) + 1;
+    if (jitter_seed) {
+        unsigned long h = jitter_seed ^ ((unsigned long)s * 0x9E3779B97F4A7C15UL) ^ ((unsigned long)syscall(SYS_gettid) << 17);
+        h ^= h >> 29;
+        h *= 0xBF58476D1CE4E5B9UL;
+        h ^= h >> 32;
+        if ((h & 7) == 0) {
+            struct timespec ts = {0, (long)((h >> 8) % 1500) * 1000};
+            nanosleep(&ts, NULL);
+        } else if ((h & 7) <= 2) {
+            sched_yield();
+        }
+    }
     *seq_out = s;
     *kill_after_out = 0;
     long mk = -1;
